@@ -176,7 +176,14 @@ func c13Diff(ref, got *c13Out) string {
 // independent attaches already encoded in the dialect asked for - under every
 // segmentation; the byte-at-a-time run is the reference.
 func c13VersionStream(srvDotu bool, ver string, srvMsize, cliMsize uint32) Scenario {
-	name := fmt.Sprintf("version-in-stream server-dotu=%v asks=%s msize=%d/%d", srvDotu, ver, srvMsize, cliMsize)
+	return c13VersionStreamX(srvDotu, ver, srvMsize, cliMsize, false)
+}
+
+// oversize: the Tversion is followed by one frame larger than the msize it negotiates
+// (and no larger than the server's own): the connection is dropped without executing
+// it, wherever the stream is cut.
+func c13VersionStreamX(srvDotu bool, ver string, srvMsize, cliMsize uint32, oversize bool) Scenario {
+	name := fmt.Sprintf("version-in-stream server-dotu=%v asks=%s msize=%d/%d oversize-next=%v", srvDotu, ver, srvMsize, cliMsize, oversize)
 	return Scenario{Name: name, Run: func(c *RunCtx) *Result {
 		res := &Result{Exhaustive: true, Bounds: map[string]any{"D": 1}}
 		dotu := srvDotu && ver == "9P2000.u"
@@ -184,8 +191,11 @@ func c13VersionStream(srvDotu bool, ver string, srvMsize, cliMsize uint32) Scena
 		stream = append(stream, wire.Encode(&wire.Msg{Type: wire.Tversion, Tag: wire.NOTAG, Msize: cliMsize, Version: ver}, false)...)
 		names := []string{"glenda", "bob", "glenda"}
 		ids := []uint32{7, 8, 7}
-		for i := 0; i < 3; i++ {
+		for i := 0; i < 3 && !oversize; i++ {
 			stream = append(stream, wire.Encode(tattach(uint16(10+i), uint32(i), wire.NOFID, names[i], ids[i], dotu), dotu)...)
+		}
+		if oversize {
+			stream = append(stream, wire.Encode(&wire.Msg{Type: wire.Twrite, Tag: 9, Fid: 5, Data: make([]byte, cliMsize)}, dotu)...)
 		}
 		// a fourth attach the implementation refuses with a text longer than a small client msize: the
 		// Rerror has to fit the msize just negotiated, however the stream was cut
@@ -248,7 +258,12 @@ func c13VersionStream(srvDotu bool, ver string, srvMsize, cliMsize uint32) Scena
 		}
 		ref := run(nil, 1)
 		res.Evals++
-		if !strings.Contains(ref, "closed=false") || strings.Count(ref, "Attach/") != 4 {
+		if oversize {
+			if !strings.Contains(ref, "closed=true") || strings.Contains(ref, " 9=") {
+				res.Findings = append(res.Findings, Finding{Sig: "C13/version-stream/oversize-frame-after-version-not-refused", Msg: name + ": " + ref})
+				return res
+			}
+		} else if !strings.Contains(ref, "closed=false") || strings.Count(ref, "Attach/") != 4 {
 			res.Findings = append(res.Findings, Finding{Sig: "C13/version-stream/byte-at-a-time-run-failed", Msg: name + ": " + ref})
 			return res
 		}
@@ -453,6 +468,7 @@ func c13Scenarios(tier string) []Scenario {
 	for _, sd := range []bool{false, true} {
 		for _, ver := range []string{"9P2000", "9P2000.u"} {
 			out = append(out, c13VersionStream(sd, ver, 8216, 256), c13VersionStream(sd, ver, 128, 8216))
+			out = append(out, c13VersionStreamX(sd, ver, 1024, 128, true))
 		}
 	}
 	out = append(out, c13ClientScenarios(tier)...)
